@@ -3,6 +3,7 @@ import LunaVerif.Model.Periph.Ila
 import LunaVerif.Model.Periph.IlaStream
 import LunaVerif.Model.Periph.IlaSpi
 import LunaVerif.Model.Periph.IlaUart
+import LunaVerif.Model.Periph.IlaCdc
 open LunaVerif LunaVerif.Proto LunaVerif.Ila
 
 /-- which class is being co-simulated (first config int) -/
@@ -11,6 +12,7 @@ inductive DState
   | stream (c : Config) (s : IlaStream.State)
   | spi    (c : IlaSpi.Config) (s : IlaSpi.State)
   | uart   (c : IlaUart.Config) (s : IlaUart.State)
+  | cdc    (c : Config) (s : IlaCdc.State)
 
 /-- config line: `# kind depth pretrigger` (kind 0 = IntegratedLogicAnalyzer, 1 = StreamILA).
 kind 0: input line `trigger inputs captured_sample_number`, output line `sampling complete captured_sample`;
@@ -19,7 +21,10 @@ kind 2 (SyncSerialILA): config line `# 2 depth pretrigger bits_per_word clock_po
 input line `trigger inputs sck sdi cs`, output line `sampling complete sdo`;
 kind 3 (AsyncSerialILA): config line `# 3 depth pretrigger divisor bytes_per_sample`, input line `trigger inputs`,
 output line `sampling complete tx stream.valid stream.ready stream.payload` (the last three are the internal stream
-between the StreamILA and the UART transmitter). -/
+between the StreamILA and the UART transmitter);
+kind 4 (StreamILA with o_domain != domain, the FIFO abstracted to a queue): config line `# 4 depth pretrigger`, one line
+per clock cycle of either domain in the order of the clock edges: `0 trigger inputs w_rdy` (capture domain) or
+`1 r_en r_rdy 0` (output domain); output line `sampling complete valid payload first last ok`. -/
 def main : IO Unit :=
   runDriver (σ := DState)
     (fun cfg =>
@@ -31,6 +36,7 @@ def main : IO Unit :=
       else if fld cfg 0 = 3 then
         let cu : IlaUart.Config := ⟨c, fld cfg 3, fld cfg 4⟩
         .uart cu (IlaUart.init cu)
+      else if fld cfg 0 = 4 then .cdc c (IlaCdc.init c)
       else .core c (init c))
     (fun st i =>
       match st with
@@ -45,4 +51,9 @@ def main : IO Unit :=
         (.spi c s', [b2n o.sampling, b2n o.complete, b2n o.sdo])
       | .uart c s =>
         let (s', o) := IlaUart.step c s ⟨n2b (fld i 0), fld i 1⟩
-        (.uart c s', [b2n o.sampling, b2n o.complete, b2n o.tx, b2n o.valid, b2n o.ready, o.payload]))
+        (.uart c s', [b2n o.sampling, b2n o.complete, b2n o.tx, b2n o.valid, b2n o.ready, o.payload])
+      | .cdc c s =>
+        let ev : IlaCdc.Ev := if fld i 0 = 0 then .w (n2b (fld i 1)) (fld i 2) (n2b (fld i 3))
+                              else .r (n2b (fld i 1)) (n2b (fld i 2))
+        let (s', o) := IlaCdc.step c s ev
+        (.cdc c s', [b2n o.sampling, b2n o.complete, b2n o.valid, o.payload, b2n o.first, b2n o.last, b2n o.ok]))
